@@ -226,6 +226,7 @@ func (e *Exec) callFunction(st *State, fr *Frame, fn *ssa.Function, args []Value
 		// ghost call counter (contracts speak about it through ghost_calls("<callee>")); when the callee's first result
 		// is a pointer, the one returned by the latest call is kept too (ghost_last_<callee>())
 		k := "calls." + fn.Name()
+		st.AssumeFact(BVUlt(e.ghGet(st, k, BV(64), IntConst(0)), BVConst(1<<62, 64))) // (a counter of calls made never wraps)
 		e.ghSet(st, k, BV(64), IntConst(0), BVAdd(e.ghGet(st, k, BV(64), IntConst(0)), BVConst(1, 64)))
 		outs := e.callFunction1(st, fr, fn, args, bind, pos)
 		e.recordLastResult(outs, fn.Name())
@@ -240,6 +241,9 @@ func (e *Exec) recordLastResult(outs []Outcome, callee string) {
 	for _, o := range outs {
 		if len(o.results) == 0 || o.st.dead {
 			continue
+		}
+		if os.Getenv("GOVC_DEBUG") == "9" {
+			fmt.Fprintf(os.Stderr, "LASTRESULT %s %s\n", callee, describeValue(o.results[0]))
 		}
 		switch r := o.results[0].(type) {
 		case *PtrV:
@@ -436,6 +440,7 @@ func (e *Exec) methodOf(t types.Type, m *types.Func) *ssa.Function {
 func (e *Exec) invoke(st *State, fr *Frame, cc *ssa.CallCommon, recv *IfaceV, args []Value, pos token.Pos) []Outcome {
 	if fr.top && e.topSpec != nil && e.specMode == 0 && e.topSpec.CountCalls[cc.Method.Name()] {
 		k := "calls." + cc.Method.Name()
+		st.AssumeFact(BVUlt(e.ghGet(st, k, BV(64), IntConst(0)), BVConst(1<<62, 64)))
 		e.ghSet(st, k, BV(64), IntConst(0), BVAdd(e.ghGet(st, k, BV(64), IntConst(0)), BVConst(1, 64)))
 		outs := e.invoke1(st, fr, cc, recv, args, pos)
 		e.recordLastResult(outs, cc.Method.Name())
